@@ -658,3 +658,131 @@ func c15TipsAnnotations(c *Ctx, r *R) {
 	}
 	r.Check(ok, "every-annotation-recorded", fn.Pos(), "each id named by an annotation gets that annotation appended to its list", "an annotation can be passed over for an id it names (only recorded when it is the first for that id, or not at all): a later revocation of the same entry is ignored when reference tips are computed")
 }
+
+func init() {
+	reg(&eng.Rule{ID: "C15.sync-decisions", Prop: "C15", Floor: 4,
+		Doc: "In sync a reference is scheduled for update only (a) behind the true edge of KnowsCommit(<tip recorded by the remote log>, <local tip>) — in that argument order: the remote state descends from the local one — or (b) in the loop that copies the diverged references, which lies behind overwriteLocalRefs; a reference is put on the diverged list exactly on the complementary edges; and ReconcileLocalRSLWithRemote replays the local-only entries from the last index down to 0 (oldest first, none left out).",
+		Run: c15SyncDecisions})
+}
+
+func c15SyncDecisions(c *Ctx, r *R) {
+	if fn := r.Fn("(*experimental/gittuf.Repository).sync"); fn != nil {
+		tips := eng.PCall("experimental/gittuf.getLatestRefTipsFromRSLEntries", 0)
+		fromTips := func(v ssa.Value) bool {
+			hit := false
+			eng.WalkOperands(v, 5, func(w ssa.Value) {
+				if tips(w) {
+					hit = true
+				}
+			})
+			return hit
+		}
+		// the local tip of the reference being examined: GetReference(<loop variable>), not the log reference
+		local := func(v ssa.Value) bool {
+			k, idx, ok := eng.RootCall(eng.Strip(v))
+			if !ok || idx != 0 || k.Method() != "GetReference" {
+				return false
+			}
+			_, isConst := eng.ConstString(k.Arg(0))
+			return !isConst && !eng.PCall("pkg/rsl.RemoteTrackerRef", 0)(k.Arg(0))
+		}
+		var ffTrue, ffFalse []eng.Edge
+		nKC, okArgs := 0, true
+		for _, k := range eng.Calls(fn, false) {
+			if k.Method() != "KnowsCommit" {
+				continue
+			}
+			// only the per-reference test (its arguments are a recorded tip and a local tip), not the log-level ones
+			if !local(k.Arg(1)) && !local(k.Arg(0)) {
+				continue
+			}
+			nKC++
+			if !(fromTips(k.Arg(0)) && local(k.Arg(1))) {
+				okArgs = false
+			}
+			if v := k.Result(0); v != nil {
+				ffTrue = append(ffTrue, eng.BoolEdges(fn, eng.PSame(v), true)...)
+				ffFalse = append(ffFalse, eng.BoolEdges(fn, eng.PSame(v), false)...)
+			}
+		}
+		r.Site(nKC)
+		r.Check(nKC >= 1 && okArgs, "ff-test-args", fn.Pos(), "fast-forward test is KnowsCommit(recorded remote tip, local tip)", "the per-reference fast-forward test is not KnowsCommit(<tip recorded by the remote log>, <local tip>) in that order: a local reference that is AHEAD of the remote record would be rewound")
+		ow := eng.BoolEdges(fn, eng.PParam("overwriteLocalRefs"), true)
+		owFalse := eng.BoolEdges(fn, eng.PParam("overwriteLocalRefs"), false)
+		okDir, nDir := true, 0
+		for _, b := range fn.Blocks {
+			for _, in := range b.Instrs {
+				mu, ok := in.(*ssa.MapUpdate)
+				if !ok || !strings.HasSuffix(mu.Map.Type().String(), "githash.Hash") || !strings.HasPrefix(mu.Map.Type().String(), "map[string]") {
+					continue
+				}
+				if _, isConst := eng.ConstString(mu.Key); isConst {
+					continue // the log reference itself: always moved to the remote state
+				}
+				nDir++
+				dom := false
+				for _, e := range ffTrue {
+					if eng.EdgeDominates(e, b) {
+						dom = true
+					}
+				}
+				// or: copying the diverged references — a loop over a []string, reachable only with overwriteLocalRefs
+				if !dom {
+					inCopy := false
+					for _, h := range eng.LoopsOver(fn, func(v ssa.Value) bool { return v.Type().String() == "[]string" }) {
+						if eng.NaturalLoop(h)[b] {
+							inCopy = true
+						}
+					}
+					if inCopy {
+						for _, e := range ow {
+							if eng.EdgeDominates(e, b) {
+								dom = true
+							}
+						}
+						// the second copy site sits after `if !overwriteLocalRefs { return … }`
+						for _, e := range owFalse {
+							if eng.LeadsOnlyToErr(e, "") == nil && e.From.Dominates(b) {
+								dom = true
+							}
+						}
+					}
+				}
+				okDir = okDir && dom
+			}
+		}
+		r.Check(okDir && nDir >= 2, "update-only-if-ff-or-overwrite", fn.Pos(), "a reference is scheduled for update only when the remote record descends from the local tip, or when overwriting was requested", "a reference can be scheduled for update although the remote record does not descend from the local tip and overwriting was not requested (fast-forward test inverted or bypassed)")
+		okDiv, nDiv := true, 0
+		for _, k := range eng.Calls(fn, false) {
+			if k.Name() != "builtin.append" || k.Instr.Common().Args[0].Type().String() != "[]string" {
+				continue
+			}
+			nDiv++
+			dom := false
+			for _, e := range ffFalse {
+				if eng.EdgeDominates(e, k.Block()) {
+					dom = true
+				}
+			}
+			for _, e := range eng.BoolEdges(fn, func(v ssa.Value) bool {
+				ek, _, ok := eng.RootCall(v)
+				return ok && ek.Method() == "Equal"
+			}, false) {
+				if eng.EdgeDominates(e, k.Block()) {
+					dom = true
+				}
+			}
+			okDiv = okDiv && dom
+		}
+		r.Check(okDiv && nDiv >= 1, "diverged-iff-not-ff", fn.Pos(), "a reference is listed as diverged only when the fast-forward test (or, for non-commits, equality) failed", "a reference is put on the diverged list on the wrong edge of the fast-forward / equality test")
+	}
+	if fn := r.Fn("(*experimental/gittuf.Repository).ReconcileLocalRSLWithRemote"); fn != nil {
+		ok := false
+		for _, h := range eng.LoopsOver(fn, eng.PCall("experimental/gittuf.getRSLEntriesUntil", 0)) {
+			if descendingFullLoop(h) {
+				ok = true
+			}
+		}
+		r.Check(ok, "replay-oldest-first-all", fn.Pos(), "local-only entries are replayed from index len-1 down to 0", "the replay loop over the local-only entries does not run from len-1 down to index 0: an entry is left out or the order changes")
+	}
+}
